@@ -1,7 +1,7 @@
 (* C09 -- generic theorem: for a resumable unit, the outcome of the chunked run
    does not depend on the partition of the byte string. *)
 From Coq Require Import List ZArith Lia Arith.
-From LJT Require Import model.Suspend.
+From LJT Require Import model.SuspendCore.
 Import ListNotations.
 
 Lemma skipn_add {A} : forall n m (l : list A), skipn (n + m) l = skipn m (skipn n l).
@@ -64,12 +64,12 @@ Section Generic.
     | Halt => Halted s b
     end.
   Proof.
-    intros. unfold Suspend.drain at 1. cbn [Suspend.drain_f].
+    intros. unfold SuspendCore.drain at 1. cbn [SuspendCore.drain_f].
     destruct (u s b) as [s' n k| | |] eqn:E; try reflexivity.
     destruct (done_stable _ _ _ _ R _ _ _ _ _ E) as (Hn & Hs & _).
     cbv zeta.
     destruct (Nat.leb k (length (skipn n b))) eqn:L; [|reflexivity].
-    apply Nat.leb_le in L. unfold Suspend.drain.
+    apply Nat.leb_le in L. unfold SuspendCore.drain.
     apply fuel_irrelevant; rewrite !skipn_length in *; lia.
   Qed.
 
